@@ -143,7 +143,7 @@ def make_search(mido, depth, base=(0, 0)):
     def ops(s, hist):
         f = s['f']
         out = [('add_track',), ('add_track_named',), ('append_track',),
-               ('tpb',), ('assign_tracks',)]
+               ('tpb',), ('assign_tracks',), ('enter',), ('exit',)]
         for t in (0, 1, 2):
             if t != f.type:
                 out.append(('type', t))
@@ -207,6 +207,19 @@ def make_search(mido, depth, base=(0, 0)):
                     if i == 1:
                         f.length            # measured while iterating
                         break
+            except Exception:
+                pass
+            return None
+        if k == 'enter':
+            # the context-manager form: `with MidiFile(...) as f:`
+            try:
+                f.__enter__()
+            except Exception:
+                pass
+            return None
+        if k == 'exit':
+            try:
+                f.__exit__(None, None, None)
             except Exception:
                 pass
             return None
@@ -327,7 +340,8 @@ def run():
         f'messages for expansion) over edits {{add_track, add_track(name), '
         f'tracks.append, tracks.pop, del tracks[0], track.append, track += '
         f'[...], track.insert(0, set_tempo), del track[0], msg.time = 7, '
-        f'msg.tempo = ..., ticks_per_beat, type 0/1/2, tracks = [...]}} and '
+        f'msg.tempo = ..., ticks_per_beat, type 0/1/2, tracks = [...], entering '
+        f'/ leaving the context-manager form}} and '
         f'observations {{list(f), f.length, f.merged_track, save bytes, '
         f'play on a fake clock, an iteration or play abandoned after 1-2 messages, length measured inside an iteration}}. After every step all five observations are '
         f'compared with those of MidiFile(type, ticks_per_beat, tracks=deep '
